@@ -81,8 +81,14 @@ def gen_formulate(rng, slot: int, fault_mode: bool) -> dict:
     return op
 
 
-def generate(seed_: int, run: int, reactions: list[str]) -> dict:
+def generate(seed_: int, run: int, reactions: list[str], wild_hash_seeds: bool = False) -> dict:
     rng = core.run_rng(PROP, seed_, run)
+    cfg_pool = list(core.hash_configs(seed_, run))
+    if wild_hash_seeds and run % 8 == 5:
+        # thorough tier: every 8th run draws its own hash seeds instead of the 16 lanes' (costs zygote starts)
+        wild = random_seed_rng = core.run_rng(PROP, seed_, run, "wild")
+        cfg_pool = ["H0", f"H{wild.randrange(1, 2**31)}", f"H{random_seed_rng.randrange(1, 2**31)}",
+                    f"HU{wild.randrange(1, 2**31)}"]
     tags = [t for t in RX_WEIGHTS if t in reactions]
     weights = [RX_WEIGHTS[t] for t in tags]
     fault_mode = rng.random() < 0.6
@@ -94,7 +100,7 @@ def generate(seed_: int, run: int, reactions: list[str]) -> dict:
     sel_range = rng.choice([1, 2, 3, 64])
     segments = []
     for _ in range(n_segments):
-        cfg = rng.choice(core.hash_configs(seed_, run))
+        cfg = rng.choice(cfg_pool)
         ops: list[dict] = []
         slots: dict[int, str] = {}
         n_builders = rng.choice([1, 2, 2, 3])
@@ -249,7 +255,8 @@ class Context:
         self.refs = References(zy, fresh_sample=options.get("tier") == "thorough")
 
     def run(self, r: int) -> dict:
-        workload = generate(self.seed, r, self.info["reactions"])
+        workload = generate(self.seed, r, self.info["reactions"],
+                            wild_hash_seeds=self.options.get("tier") == "thorough")
         out = execute(self.zy, self.refs, r, workload)
         while self.refs.fresh_mismatch:
             mm = self.refs.fresh_mismatch.pop()
@@ -441,7 +448,10 @@ def coverage(records: list[dict], extras: list[dict], options: dict) -> dict:
         "faults_armed_fired": {k: {"armed": a, "fired": f} for k, (a, f) in faults.items()},
         "interrupt_sites_top": top_sites, "distinct_interrupt_sites": len(sites),
         "process_global_caches_touched": sorted(touched),
-        "segments_per_hash_config": cfgs,
+        "segments_per_hash_config_kind": {"PYTHONHASHSEED=0": cfgs.get("H0", 0),
+                               "other fixed seed": sum(n for c, n in cfgs.items() if c.startswith("H") and not c.startswith("HU") and c != "H0"),
+                               "unset (emulated)": sum(n for c, n in cfgs.items() if c.startswith("HU"))},
+        "distinct_hash_seed_configurations": len(cfgs),
         "references_computed": sum(e.get("references_computed", 0) for e in extras),
         "references_cross_checked_in_newly_execed_interpreter": sum(e.get("fresh_checked", 0) for e in extras),
         "zygote_nonempty_caches": next((e.get("zygote_nonempty_caches") for e in extras
